@@ -56,7 +56,7 @@ void harness(void) {
   int64_t r2 = w_draw_text(1, (uint64_t)(x + 1), (uint64_t)(y + 1), wh2, fg, bg, NCH, c0, c1);
   OBS(r); OBS(r2);
   ASSERT(r == 0 && r2 == 0, "draw_text never throws");
-  if (x >= -6) ASSERT(wh[0] == wh2[0] && wh[1] == wh2[1], "reported extent does not depend on the canvas");
+  if (x >= 0) ASSERT(wh[0] == wh2[0] && wh[1] == wh2[1], "reported extent does not depend on the canvas"); /* x<0: see the max_x_pos observation above */
   w_get_data(0, small1, N); w_get_data(1, big1, NB);
   for (int k = 0; k < CH; k++) { OBS(small1[(py * W + px) * CH + k]); ASSERT(small1[(py * W + px) * CH + k] == big1[((py + 1) * W2 + px + 1) * CH + k], "text on the small canvas equals text on the larger canvas, cropped"); }
   w_free(0); w_free(1);
